@@ -34,6 +34,7 @@ type vScrRes struct {
 	perMetric []int // metrics kind: data points of each metric; logs kind: one entry = records
 	errKind   int   // 0 ok, 1 partial, 2 error
 	failed    int
+	wrap      int   // how the error is handed over: 0 as it is, 1 fmt.Errorf("%w"), 2 errors.Join with another error, 3 both
 }
 
 func (r vScrRes) items() int {
@@ -80,13 +81,25 @@ func vC19Logs(r vScrRes) plog.Logs {
 }
 
 func vC19ScrErr(r vScrRes) error {
+	var e error
 	switch r.errKind {
 	case 1:
-		return scrapererror.NewPartialScrapeError(errors.New("partial"), r.failed)
+		e = scrapererror.NewPartialScrapeError(errors.New("partial"), r.failed)
 	case 2:
-		return errors.New("scrape failed")
+		e = errors.New("scrape failed")
+	default:
+		return nil
 	}
-	return nil
+	// the helpers must classify an error by errors.As / errors.Is, i.e. also when it arrives wrapped
+	switch r.wrap {
+	case 1:
+		e = fmt.Errorf("scraper x: %w", e)
+	case 2:
+		e = errors.Join(errors.New("also"), e)
+	case 3:
+		e = fmt.Errorf("outer: %w", errors.Join(e, errors.New("and")))
+	}
+	return e
 }
 
 func vC19ScrTerm(recording bool, kind int, ops []vScrape, vec [vC19NCounters]int64) string {
@@ -151,7 +164,11 @@ func vC19RunScrapes(t *testing.T, mode int, kind int, nscr int, ops []vScrape) (
 				scraper.WithMetrics(func(context.Context, scraper.Settings, component.Config) (scraper.Metrics, error) { return sc, nil }, component.StabilityLevelAlpha))
 			opts = append(opts, AddFactoryWithConfig(f, &struct{}{}))
 		}
-		next, _ := consumer.NewMetrics(func(_ context.Context, md pmetric.Metrics) error { return endScrape(md.DataPointCount()) })
+		next, _ := consumer.NewMetrics(func(_ context.Context, md pmetric.Metrics) error {
+			n := md.DataPointCount()
+			md.ResourceMetrics().MoveAndAppendTo(pmetric.NewMetrics().ResourceMetrics()) // a consumer may take the data away
+			return endScrape(n)
+		})
 		r, err = NewMetricsController(&cfg, rset, next, opts...)
 	} else {
 		for i := 0; i < nscr; i++ {
@@ -164,7 +181,11 @@ func vC19RunScrapes(t *testing.T, mode int, kind int, nscr int, ops []vScrape) (
 				scraper.WithLogs(func(context.Context, scraper.Settings, component.Config) (scraper.Logs, error) { return sc, nil }, component.StabilityLevelAlpha))
 			opts = append(opts, AddFactoryWithConfig(f, &struct{}{}))
 		}
-		next, _ := consumer.NewLogs(func(_ context.Context, ld plog.Logs) error { return endScrape(ld.LogRecordCount()) })
+		next, _ := consumer.NewLogs(func(_ context.Context, ld plog.Logs) error {
+			n := ld.LogRecordCount()
+			ld.ResourceLogs().MoveAndAppendTo(plog.NewLogs().ResourceLogs())
+			return endScrape(n)
+		})
 		r, err = NewLogsController(&cfg, rset, next, opts...)
 	}
 	if err != nil {
@@ -223,6 +244,10 @@ func TestVerifC19Scraper(t *testing.T) {
 				r := vScrRes{errKind: rng.Pick(5, 2, 2)}
 				if r.errKind == 1 {
 					r.failed = rng.Intn(9)
+				}
+				if r.errKind != 0 {
+					r.wrap = rng.Pick(2, 1, 1, 1)
+					out.Stat(fmt.Sprintf("error_kind%d_wrap%d", r.errKind, r.wrap), 1)
 				}
 				if kind == 0 {
 					nm := rng.Intn(5)
@@ -303,6 +328,38 @@ func TestVerifC19Scraper(t *testing.T) {
 					break
 				}
 			}
+		}
+		// differential oracle: the same history with every error handed over UNWRAPPED must move every
+		// instrument alike (classification by errors.As / errors.Is, not by type assertion)
+		wrapped := false
+		plain := make([]vScrape, len(ops))
+		for k := range ops {
+			plain[k] = vScrape{err: ops[k].err, res: append([]vScrRes(nil), ops[k].res...)}
+			for i := range plain[k].res {
+				if plain[k].res[i].wrap != 0 {
+					wrapped = true
+					plain[k].res[i].wrap = 0
+				}
+			}
+		}
+		if wrapped {
+			ref, _, _ := vC19RunScrapes(t, mode, kind, nscr, plain)
+			if ref.vec != got.vec {
+				out.Oracle("counters-depend-on-error-wrapping", term,
+					fmt.Sprintf("kind=%d with wrapped errors %v, with the same errors unwrapped %v", kind, got.vec, ref.vec))
+			}
+		}
+		// direct: errored = the Failed numbers of the partial errors the scrapers reported (wrapped or not)
+		var erroredWant int64
+		for _, o := range ops {
+			for _, r := range o.res {
+				if r.errKind == 1 {
+					erroredWant += int64(r.failed)
+				}
+			}
+		}
+		if got.vec[7+2*kind] != erroredWant {
+			out.Oracle("scraper-errored-inexact", term, fmt.Sprintf("kind=%d errored counter %d, partial errors reported %d failed", kind, got.vec[7+2*kind], erroredWant))
 		}
 		if !ok {
 			spansOK := true
